@@ -26,9 +26,9 @@ Inductive completion := Normal | Brk (l : option N) | Cont (l : option N) | Ret 
 
 Definition e_throws (e : expr) : bool := match e with ECall _ => true | _ => false end.
 Definition oe_throws (o : option expr) : bool := match o with Some e => e_throws e | None => false end.
-Definition may_true (c : cond) : bool := match c with CFalse => false | _ => true end.
-Definition may_false (c : cond) : bool := match c with CTrue => false | _ => true end.
-Definition cond_throws (c : cond) : bool := match c with COpaque e => e_throws e | _ => false end.
+Definition may_true (c : cond) : bool := match c with CFalse | CSeq _ false => false | _ => true end.
+Definition may_false (c : cond) : bool := match c with CTrue | CSeq _ true | CUnkTrue => false | _ => true end.
+Definition cond_throws (c : cond) : bool := match c with COpaque e | CSeq e _ => e_throws e | _ => false end.
 
 (* Every loop is `loop { if (!pre) break; body; if (!post) break; }` *)
 Definition opaque := COpaque (EIdent 0).
